@@ -217,6 +217,8 @@ class Translator:
             if nm == 'operator bool':
                 return ('optbool', obj)
             so = self.strip(obj)
+            if so.get('kind') == 'CXXThisExpr' and len(inner) == 1 and ('this_' + nm) in self.ambient:
+                return ('ambientcall', 'this_' + nm)
             if so.get('kind') == 'MemberExpr' and self.strip(so['inner'][0]).get('kind') == 'CXXThisExpr' and len(inner) == 1 and \
                     (so['name'] + '_' + nm) in self.ambient:
                 return ('ambientcall', so['name'] + '_' + nm)
@@ -329,6 +331,10 @@ class Translator:
             return [], '(' + n['value'] + '%string)'
         if k == 'CXXBoolLiteralExpr':
             return [], 'true' if n['value'] else 'false'
+        if k in ('CXXTemporaryObjectExpr', 'CXXConstructExpr') and 'pair<' in n.get('type', {}).get('qualType', '') and len(inner) == 2:
+            b1, t1 = self.expr(inner[0], cx)
+            b2, t2 = self.expr(inner[1], cx)
+            return b1 + b2, '(%s, %s)' % (t1, t2)
         if k == 'CXXThisExpr':
             return [], 'this_'
         if k == 'DeclRefExpr':
